@@ -454,4 +454,78 @@ theorem tp1_listener {cfg : Cfg} {n : Net} {x y : Nat} {stx sty : NetStation} {p
     have hpe := Net.poll_eq n y now sty _ inc _ h.gy hal hon hdv hpoll'
     exact ⟨_, inc, _, hpe, rfl, rfl, .inr ⟨by omega, rfl⟩⟩
 
+/-! ## The run -/
+
+/-- Run from the adoption to the acceptance of the token: the holder `x` transmits nothing but the token to `aH`; the
+adopted station `y` transmits nothing and holds the token (`UseToken`) no later than `B`. -/
+def PassRun (x y aL aH : Nat) (B : Int) : Net → List (Nat × Int) → Prop
+  | _, [] => True
+  | n, (i, now) :: rest =>
+    ∃ n' inc c, n.poll i now = (n', inc, some (.ok c)) ∧
+      ((i = x ∧ (c.tx = none ∨ c.tx = some (tokenBytes aH aL)) ∧ PassRun x y aL aH B n' rest) ∨
+       (i = y ∧ c.tx = none ∧ (PassRun x y aL aH B n' rest ∨ (now ≤ B ∧ c.s.st = .useToken ⟨now, none⟩ false))))
+
+/-- Before the pass or token on the bus. -/
+def TPh (cfg : Cfg) (n : Net) (x y : Nat) (stx sty : NetStation) (lx : Int) (M : List Nat) (tl : Int) : Prop :=
+  (∃ ly, TP0 cfg n x y stx sty lx ly M tl) ∨
+  (∃ p lY, TP1 cfg n x y stx sty p lY M (lx + 2 * (cfg.b33 : Nat) + 2 * (cfg.P : Nat) + 1) tl)
+
+theorem TPh.info {cfg : Cfg} {n : Net} {x y : Nat} {stx sty : NetStation} {lx : Int} {M : List Nat} {tl : Int}
+    (h : TPh cfg n x y stx sty lx M tl) :
+    n.stations[x]? = some stx ∧ n.stations[y]? = some sty ∧ x < n.stations.length ∧ y < n.stations.length ∧ y ≠ x := by
+  rcases h with ⟨ly, h⟩ | ⟨p, lY, h⟩
+  · exact ⟨h.soloX.gx, h.soloY.gx, h.soloX.xl, h.soloY.xl, h.yx⟩
+  · exact ⟨h.soloX.gx, h.gy, h.soloX.xl, h.yl, h.yx⟩
+
+/-- **The adopted station gets the token**: under any schedule that polls both stations at least every `P`, the
+holder waits for the synchronisation pause, passes the token once and supervises the pass without its slot time running
+out; the adopted station receives the token in whatever pieces it arrives, accepts it and holds it no later than
+`lx + 2·bits 33 + 2P + 1`. -/
+theorem pass_run {cfg : Cfg} (hok : cfg.Ok) (x y : Nat) (lx : Int) (M : List Nat) (aL aH : Nat) :
+    ∀ (evs : List (Nat × Int)) (n : Net) (stx sty : NetStation) (tl : Int),
+    TPh cfg n x y stx sty lx M tl → n.stations.length = 2 → stx.s.p.address = aL → sty.s.p.address = aH →
+    SchedN cfg.P n tl evs →
+    PassRun x y aL aH (lx + 2 * (cfg.b33 : Nat) + 2 * (cfg.P : Nat) + 1) n evs := by
+  intro evs
+  induction evs with
+  | nil => intro _ _ _ _ _ _ _ _ _; trivial
+  | cons ev rest ih =>
+    intro n stx sty tl hq hN haL haH hs
+    obtain ⟨i, now⟩ := ev
+    obtain ⟨hi, htl, hown, hgap, hrest⟩ := hs
+    obtain ⟨hgx0, hgy0, hxl, hyl, hyx⟩ := hq.info
+    have hgx := hgap x hxl
+    have hgy := hgap y hyl
+    have hixy : i = x ∨ i = y := by omega
+    have hlenOf : ∀ n' inc c, n.poll i now = (n', inc, some (.ok c)) → n'.stations.length = 2 := by
+      intro n' inc c hp
+      have := Net.poll_len n i now; rw [hp] at this; simp only at this; rw [this]; exact hN
+    rcases hixy with rfl | rfl
+    · rcases hq with ⟨ly, h⟩ | ⟨p, lY, h⟩
+      · obtain ⟨n', c, hp, h'⟩ := tp0_claimant h hok now htl hown hgx
+        have hn' : (n.poll i now).1 = n' := by rw [hp]
+        rw [hn'] at hrest
+        have hpp := Net.poll_params n i now n' [] c stx hp hgx0
+        have haL' : (upSt stx c).s.p.address = aL := by show c.s.p.address = _; rw [hpp]; exact haL
+        rcases h' with ⟨htx, h'⟩ | ⟨htx, h'⟩
+        · exact ⟨n', [], c, hp, .inl ⟨rfl, .inl htx, ih n' (upSt stx c) sty now (.inl ⟨ly, h'⟩) (hlenOf _ _ _ hp) haL' haH hrest⟩⟩
+        · exact ⟨n', [], c, hp, .inl ⟨rfl, .inr (by rw [htx, haL, haH]),
+            ih n' (upSt stx c) sty now (.inr ⟨now, ly, h'⟩) (hlenOf _ _ _ hp) haL' haH hrest⟩⟩
+      · obtain ⟨n', c, hp, htx, h'⟩ := tp1_claimant h hok now htl hown hgy
+        have hn' : (n.poll i now).1 = n' := by rw [hp]
+        rw [hn'] at hrest
+        exact ⟨n', [], c, hp, .inl ⟨rfl, .inl htx, ih n' stx sty now (.inr ⟨p, lY, h'⟩) (hlenOf _ _ _ hp) haL haH hrest⟩⟩
+    · rcases hq with ⟨ly, h⟩ | ⟨p, lY, h⟩
+      · obtain ⟨n', c, hp, htx, h'⟩ := tp0_listener h hok now htl hown hgx
+        have hn' : (n.poll i now).1 = n' := by rw [hp]
+        rw [hn'] at hrest
+        exact ⟨n', [], c, hp, .inr ⟨rfl, htx, .inl (ih n' stx sty now (.inl ⟨ly, h'⟩) (hlenOf _ _ _ hp) haL haH hrest)⟩⟩
+      · obtain ⟨n', inc, c, hp, htx, hpp, h'⟩ := tp1_listener h hok now htl hown hgy
+        have hn' : (n.poll i now).1 = n' := by rw [hp]
+        rw [hn'] at hrest
+        have haH' : (upSt sty c).s.p.address = aH := by show c.s.p.address = _; rw [hpp]; exact haH
+        rcases h' with ⟨lY', h'⟩ | ⟨hB, hst⟩
+        · exact ⟨n', inc, c, hp, .inr ⟨rfl, htx, .inl (ih n' stx (upSt sty c) now (.inr ⟨p, lY', h'⟩) (hlenOf _ _ _ hp) haL haH' hrest)⟩⟩
+        · exact ⟨n', inc, c, hp, .inr ⟨rfl, htx, .inr ⟨hB, hst⟩⟩⟩
+
 end PV
